@@ -24,28 +24,56 @@ def gen_history(rng, nops):
     ops = ["PB new"]
     if rng.random() < 0.03:
         # large-buffer phase: capacity beyond 64 KiB, then single requests between 1x and 3x the current capacity
-        ops.append("PB app a %d %d" % (rng.choice([66000, 70000, 100000]), rng.getrandbits(16)))
+        first = rng.choice([66000, 70000, 100000])
+        ops.append("PB app a %d %d" % (first, rng.getrandbits(16)))
         for _ in range(rng.choice([1, 2, 3])):
             ops.append("PB app a %d %d" % (rng.choice([100000, 120000, 180000, 250000, 400000]), rng.getrandbits(16)))
             ops.append(rng.choice(["PB set b 5 65 la 150000", "PB fmt a 90000 7", "PB app a 3 9"]))
         nops = 6
+    elif rng.random() < 0.004:
+        # 1-4 MiB phase
+        first = rng.choice([1 << 20, (1 << 20) - 9, (1 << 20) + 1, 1050000, 1500000, 2 << 20, 3000000, 4 << 20])
+        ops.append("PB app a %d %d" % (first, rng.getrandbits(16)))
+        ops.append(rng.choice(["PB reset", "PB app a 3 9", "PB app a 500000 4"]))
+        nops = 3
     elif rng.random() < 0.0012:
         # huge-buffer phase: capacity of 8 MiB and more, then single requests of 1.2x .. 2.5x the capacity
         first = rng.choice([8 << 20, (8 << 20) + 5, 9000000, 12000000])
         ops.append("PB app a %d %d" % (first, rng.getrandbits(16)))
-        ops.append("PB app a %d %d" % (int(first * rng.choice([1.2, 1.5, 1.6, 1.9, 2.5])), rng.getrandbits(16)))
-        ops.append(rng.choice(["PB set b 5 65 la 3000000", "PB fmt a 90000 7", "PB app a 3 9"]))
+        if rng.random() < 0.5:
+            ops.append("PB app a %d %d" % (int(first * rng.choice([1.2, 1.5, 1.6, 1.9, 2.5])), rng.getrandbits(16)))
+            ops.append(rng.choice(["PB set b 5 65 la 3000000", "PB fmt a 90000 7", "PB app a 3 9"]))
+            ops.append("HUGE-DONE")
         nops = 3
+    if ops[-1] == "HUGE-DONE":
+        ops.pop()
+    elif len(ops) > 1:
+        # requests sized as a fraction of the (large) capacity: just over it, around 1.5x, just under / at / over 2x, well beyond -- whatever growth policy is in
+        # force for big buffers, the result must hold what was asked for
+        for _ in range(rng.choice([1, 2, 3]) if first < (1 << 20) else 1):
+            pm = rng.choice([1001, 1010, 1100, 1250, 1400, 1499, 1500, 1501, 1510, 1600, 1750, 1900, 1990, 1999, 2000, 2001, 2100, 2600])
+            k = rng.random()
+            if k < 0.2:
+                ops.append("PB reset")
+            elif k < 0.4:
+                ops.append("PB app a %d 3" % rng.choice([1, 100, 5000]))
+            ops.append(rng.choice(["PB app p %d %d", "PB app p %d %d", "PB fmt p %d %d", "PB fast p %d %d", "PB fastu p %d %d"]) % (pm, rng.getrandbits(16)) if rng.random() < 0.8 else "PB set %s 0 66 lp %d" % (rng.choice("mb"), pm))
+        ops.append("PB app a 3 9")
     for _ in range(nops):
         r = rng.random()
         seed = rng.getrandbits(16)
-        if r < 0.28:
+        if r < 0.015:
+            # a fill that ends exactly at the capacity (bpos == size, nothing behind it), then an append through the macro with an unsigned length
+            ops.append("PB set %s 0 67 lr 0" % rng.choice("mb"))
+            ops.append("PB fastu a %d %d" % (rng.choice([0, 1, 2, 5, 31, 200]), seed))
+        elif r < 0.28:
             if rng.random() < 0.55:
                 ops.append("PB app r %d %d" % (rng.choice([-3, -2, -1, 0, 1, 2, 3, 9]), seed))
             else:
                 ops.append("PB app a %d %d" % (rng.choice([0, 0, 1, 2, 7, 8, 9, 30, 31, 32, 33, 63, 64, 65, 127, 128, 129, 1000, 5000 if rng.random() < 0.1 else 17]), seed))
         elif r < 0.36:
-            ops.append("PB fast r %d %d" % (rng.choice([-6, -4, -3, -2]), seed) if rng.random() < 0.5 else "PB fast a %d %d" % (rng.choice([0, 1, 5, 6, 31, 40, 200]), seed))
+            fk = rng.choice(["fast", "fast", "fastu"])
+            ops.append("PB %s r %d %d" % (fk, rng.choice([-6, -4, -3, -2]), seed) if rng.random() < 0.5 else "PB %s a %d %d" % (fk, rng.choice([0, 1, 5, 6, 31, 40, 200]), seed))
         elif r < 0.44:
             ops.append("PB str %d" % rng.randrange(4))
         elif r < 0.64:
@@ -90,7 +118,7 @@ def gen_history(rng, nops):
         out = []
         for o in ops:
             f = o.split()
-            if len(f) > 2 and f[1] in ("app", "fmt", "set", "str", "fmtc") and not (f[1] == "app" and int(f[3]) > 4000000) and rng.random() < 0.15:
+            if len(f) > 2 and f[1] in ("app", "fmt", "set", "str", "fmtc") and not (f[1] == "app" and int(f[3]) > 4000000) and f[2] != "p" and not (f[1] == "set" and f[5] == "lp") and rng.random() < 0.15:
                 out += ["FAILNEXT %d" % rng.choice([1, 1, 2]), o, "FAILNEXT 0"]   # (the second allocation of sprintbuf's long path is the buffer growth)
             else:
                 out.append(o)
@@ -160,7 +188,7 @@ def shard_fn(shard, nshards, seed, tier, exe, nhist):
             elif kind == "reset":
                 model = bytearray()
                 want_ret, terminated = 0, True
-            elif kind in ("app", "fast"):
+            elif kind in ("app", "fast", "fastu"):
                 model += pattern(n, int(op[4]), False)
                 want_ret, terminated = n, True
             elif kind == "fmt":
@@ -241,7 +269,11 @@ def shard_fn(shard, nshards, seed, tier, exe, nhist):
                 break
             if size > prev_size and prev_size:
                 sh.count("growths")
-            if kind in ("app", "fmt", "fast", "str") and bpos + 1 == size:
+            if len(op) > 2 and op[2] == "p" or (kind == "set" and op[5] == "lp"):
+                sh.count("request_as_fraction_of_capacity.%s.%s" % ("below_1MiB" if prev_size < (1 << 20) else "1MiB_to_8MiB" if prev_size < (8 << 20) else "8MiB_up", "upto1.5x" if int(op[3] if kind != "set" else op[6]) <= 1500 else "1.5x_to_2x" if int(op[3] if kind != "set" else op[6]) <= 2000 else "over2x"))
+            if kind == "fastu":
+                sh.count("memappend_fast_with_unsigned_length" + (".after_fill_to_capacity" if ci and cmds[ci - 1].endswith("lr 0") else ""))
+            if kind in ("app", "fmt", "fast", "fastu", "str") and bpos + 1 == size:
                 sh.count("append.fills_to_capacity_minus_one")
             if kind == "fmt" and n > 127:
                 sh.count("sprintbuf.long_path")
